@@ -312,6 +312,12 @@ func runC07(c *core.Ctx, o Options) {
 	c.RulePrefix = ""
 	c.Explanation += " G5 premises: the integrity rules of C03, the anchored first-occurrence needles of ValueByTag the exact value parsers of the codec table, and the decoder rules R3–R8 of C02 (an entry count that disagrees with the entries is an error)."
 	c.Explanation += " G2 also: Session.LogonHandler is only assigned a parameter (the application's callback itself), and a function that recovers from a panic sets its error result."
+	// G5 (premises): only a message of type Logon reaches the Logon handler (exact dispatch), the session's Logon handler runs in
+	// registration order, and a HeartBtInt the timers cannot be built with is refused (utils.NewTimer's checks)
+	checkInboundDispatch(c, "G5")
+	checkPoolGrowOnly(c, "G5")
+	checkTimerType(c, "G5")
+	c.Explanation += " G5 also: exact inbound dispatch by MsgType (= C19.H4), handler lists grow at their end only (= C19.H2), utils.Timer as in C08.W4 (NewTimer refuses periods it cannot poll)."
 	c.RuleMin = map[string]int{"G1": 14, "G2": 8, "G3": 2, "census": 12, "G4": 5, "G5": 30}
 	c.MinObl = 20
 }
